@@ -38,6 +38,13 @@ def gen_cases(rng, tier, drift):
                         cfg["sizes"] = [rng.randint(1, 4) for _ in range(4)]
                         cfg["stateful"] = rng.random() < 0.7
                     cases.append(dict(cfg=cfg, Ws=Ws, Wl=Wl, k=rng.randint(0, 2), empty=False))
+                # the fast-forward resume path (an IterableDataset with no state of its own: the loader replays the batches)
+                # has its own guards; every mismatching pair is also tried there, at interruption points where the
+                # last-yielded-worker cross-check happens to agree
+                if Ws != Wl:
+                    cfg = si.gen_cfg(rng, kinds=("iter",))
+                    cfg.update(bs=rng.choice([1, 2]), sizes=[rng.randint(3, 5) for _ in range(4)], stateful=False, rewind=False, eager=False)
+                    cases.append(dict(cfg=cfg, Ws=Ws, Wl=Wl, k=rng.choice([1, 2, 3]), empty=False))
         for W in range(4):
             cfg = si.gen_cfg(rng, kinds=("map",))
             cfg["n"], cfg["bs"] = rng.randint(3, 8), 2
